@@ -17,12 +17,40 @@ class _Null:
         return False
 
 
+class _Native:
+    """NoTracing plus: switch CrossHair's per-instruction sys.monitoring events off for the duration (Python >= 3.12), so that the concrete
+    code inside runs at native speed instead of paying one (ignored) callback per bytecode; restored on exit."""
+
+    def __enter__(self):
+        import sys
+        from crosshair.tracers import NoTracing
+        self.nt = NoTracing()
+        self.nt.__enter__()
+        self.mon = None
+        try:
+            from crosshair.tracers import SYS_MONITORING_TOOL_ID as tid
+            ev = sys.monitoring.get_events(tid)
+            if ev:
+                sys.monitoring.set_events(tid, 0)
+                self.mon = (tid, ev)
+        except Exception:
+            self.mon = None
+        return self
+
+    def __exit__(self, *a):
+        import sys
+        if self.mon:
+            sys.monitoring.set_events(*self.mon)
+            sys.monitoring.restart_events()
+        return self.nt.__exit__(*a)
+
+
 def untraced():
     """context manager: run fully concrete code at native speed inside a CrossHair harness (no-op outside CrossHair)"""
     try:
-        from crosshair.tracers import NoTracing, is_tracing
+        from crosshair.tracers import is_tracing
         if is_tracing():
-            return NoTracing()
+            return _Native()
     except Exception:
         pass
     return _Null()
